@@ -311,7 +311,10 @@ class SimulationAlgorithm(BaseSimulationAlgorithm):
         """
 
         if self.visit_type == VisitType.DATAFRAME:
-            patient_number = dict_param["df_visits"].groupby("ID").size().shape[0]
+            # observed=True: a categorical ID column may carry categories without any row (e.g. a filtered cohort)
+            patient_number = (
+                dict_param["df_visits"].groupby("ID", observed=True).size().shape[0]
+            )
 
             self.param_study = {
                 "patient_number": patient_number,
@@ -480,7 +483,7 @@ class SimulationAlgorithm(BaseSimulationAlgorithm):
         if self.visit_type == VisitType.DATAFRAME:
             dict_timepoints = (
                 self.param_study["df_visits"]
-                .groupby("ID")["TIME"]
+                .groupby("ID", observed=True)["TIME"]
                 .apply(list)
                 .to_dict()
             )
